@@ -8,8 +8,14 @@ operator (including !=).
 from . import tsparse
 
 
-def _cmpval(v):
-    if isinstance(v, str) and len(v) >= 20 and v[-1] == 'Z' and tsparse.is_timestamp(v):
+# properties whose values ARE timestamps; a timestamp-looking string anywhere else (a name, a description) is text
+TS_PROPS = {'created', 'modified', 'valid_from', 'valid_until', 'first_seen', 'last_seen', 'first_observed', 'last_observed', 'published',
+            'start', 'end', 'date', 'submitted', 'analysis_started', 'analysis_ended', 'ctime', 'mtime', 'atime', 'created_time',
+            'modified_time', 'account_created', 'account_expires', 'credential_last_changed', 'account_first_login', 'account_last_login'}
+
+
+def _cmpval(v, ts=True):
+    if ts and isinstance(v, str) and len(v) >= 20 and v[-1] == 'Z' and tsparse.is_timestamp(v):
         return ('ts', tsparse.us_of(v))
     if isinstance(v, bool):
         return ('bool', v)
@@ -20,13 +26,13 @@ def _cmpval(v):
     return ('other', repr(v))
 
 
-def _leaf(x, op, value):
+def _leaf(x, op, value, ts=True):
     if op == 'in':
-        return any(_cmpval(x) == _cmpval(v) for v in value)
+        return any(_cmpval(x, ts) == _cmpval(v, ts) for v in value)
     if op == 'contains':
         # only generated against list elements with values for which element-equality and substring coincide
-        return _cmpval(x) == _cmpval(value)
-    a, b = _cmpval(x), _cmpval(value)
+        return _cmpval(x, ts) == _cmpval(value, ts)
+    a, b = _cmpval(x, ts), _cmpval(value, ts)
     if op == '=':
         return a == b
     if op == '!=':
@@ -53,9 +59,10 @@ def holds(obj, path, op, value):
         if isinstance(v, list):
             return any(holds(e, rest, op, value) for e in v)
         return holds(v, rest, op, value)
+    ts = first in TS_PROPS
     if isinstance(v, list):
-        return any(_leaf(e, op, value) for e in v)
-    return _leaf(v, op, value)
+        return any(_leaf(e, op, value, ts) for e in v)
+    return _leaf(v, op, value, ts)
 
 
 def matches(obj, filters):
